@@ -6,6 +6,7 @@
 // position): with a callback every solution vertex carries either the label of an input vertex at
 // exactly that position or a label the callback assigned for exactly that position; without a callback
 // vertices that are not input vertices carry the default Z (0).
+#include <array>
 #include "clipper2/clipper.h"
 #include "sides/clip_api.hpp"
 #include "sides/side_z.hpp"
@@ -121,6 +122,12 @@ static void boolD_case(Reporter& rep, const Paths& S, const Paths& C) {
     PathsZ Sz = label(S, 1, false), Cz = label(C, 1001, false);
     ZOut z = z_boolopD(ct, fr, Sz, Cz, 2, 1); rep.add("lib_calls"); rep.add("cases"); rep.add("compared"); if (!ref.empty()) rep.add("nontrivial");
     std::string why;
+    { // the same run into a PolyTreeD: same vertices with the same Z values (compared as canonical sets)
+      ZOut zt = z_boolopD(ct, fr, Sz, Cz, 2, 2); rep.add("lib_calls");
+      auto canon = [](const PathsZ& pp) { std::vector<std::vector<std::array<i64, 3>>> r; for (auto& p : pp) { std::vector<std::array<i64, 3>> q; for (auto& v : p) q.push_back({v.x, v.y, v.z < 0 ? -1 : v.z}); if (!q.empty()) std::rotate(q.begin(), std::min_element(q.begin(), q.end()), q.end()); r.push_back(q); } std::sort(r.begin(), r.end()); return r; };
+      if (canon(zt.closed) != canon(z.closed)) why = "z_tree_differs_from_paths: ClipperD into PolyTreeD " + zstr(zt.closed) + " into PathsD " + zstr(z.closed);
+    }
+    if (!why.empty()) { rep.violation("C15", c.s(), why.substr(0, why.find(':')), why); continue; }
     if (xy(z.closed) != ref) why = "geometry_differs_between_builds: ClipperD USINGZ " + pstr(xy(z.closed)) + " plain " + pstr(ref);
     else {
       // labels were given on the unscaled inputs: bring them to the scaled grid for the location test
